@@ -70,6 +70,9 @@ impl IterKind {
 pub enum EndMode {
     Drop,
     Forget,
+    /// the caller's loop body panics while the iterator is alive: the iterator's Drop runs
+    /// during unwinding (`std::thread::panicking()` is true)
+    PanicDrop,
 }
 
 #[derive(Clone, Copy, Debug, PartialEq, Eq, Hash, Serialize, Deserialize)]
